@@ -20,7 +20,15 @@ Proved here for the repaired loop, over every operation sequence from `New`:
 * `pd_request_progress` — `RequestBlocks` with room in the window issues a request, or there is nothing
   left to request and every missing block is outstanding.
 
-Property theorems only; helper lemmas live in `Lemmas/PieceDownloader`.
+For C17, after the repair of finding C17-F5 (`Rejected` of a block that is not in the window):
+
+* `pd_remaining_nodup`, `pd_remaining_disjoint_pending` — no block is queued twice, or queued while a
+  request for it is outstanding;
+* `pd_requests_within_window` — requests sent minus requests retired = `len(pending)` ≤ the queue length;
+* `pd_double_request_unfixed_counterexample` — the old `Rejected` breaks all three.
+
+Property theorems only; helper lemmas live in `Lemmas/PieceDownloader` (except the two about the ledger
+`outstanding`, which is defined here as specification vocabulary).
 -/
 namespace Rain.Props.C10PD
 open Rain.Blocks Rain.PD
@@ -180,5 +188,233 @@ theorem pd_stall_unfixed_counterexample :
           { blocks := [(0, 4), (4, 1), (7, 3)], remaining := [4, 7], pending := [0], done := [0],
             buf := [1, 2, 3, 4, 0, 0, 0, 0, 0, 0], allowedFast := false }, ?_⟩
   decide
+
+/-! ## No block is queued twice (C17) — after the repair of finding C17-F5
+
+`Rejected(begin, length)` used to append `begin` to `remaining` whenever `(begin, length)` is a block of
+the piece — also when no request for it was outstanding (a second reject for the same request, a reject
+for a block never requested).  The block was then in `remaining` twice, or in `remaining` and in the
+window at once; `RequestBlocks` sent a request for every occurrence, while the window (a set) got one
+entry: more requests at the peer than the window counts (`pd_double_request_unfixed_counterexample`).
+The repaired `Rejected` ignores a reject for a block that is not in the window. -/
+
+/-- The begins of a computed block list are pairwise different (the hypothesis of the theorems below). -/
+theorem calcBlocks_keys_nodup (bs : Nat) (hbs : 0 < bs) (secs : List Sec) (bl : List Block)
+    (hbl : calcBlocks bs secs = some bl) : (bl.map (·.b)).Nodup :=
+  (calcBlocks_wf hbs hbl).nodup_keys
+
+/-- The queue invariant holds in the state `New` returns, for a block list with pairwise different begins. -/
+theorem pd_queues_init (bl : List Block) (hkeys : (bl.map (·.b)).Nodup) (af : Bool) (buf : Bytes) :
+    (init bl af buf).remaining.Nodup ∧ (init bl af buf).pending.Nodup ∧
+    ∀ x, x ∈ (init bl af buf).remaining → x ∉ (init bl af buf).pending :=
+  let h := inv4_init hkeys af buf
+  ⟨h.remNodup, h.pendNodup, h.disj⟩
+
+/-- Every call preserves the queue invariant (the three parts together; none is inductive alone), in any
+state, provided a re-queueing `Choked` iterates `pending` in an admissible order (a permutation of it). -/
+theorem pd_queues_step (s s' : State) (op : Op)
+    (hinv : s.remaining.Nodup ∧ s.pending.Nodup ∧ ∀ x, x ∈ s.remaining → x ∉ s.pending)
+    (hadm : ∀ pf order, op = .choked pf order → chokedRequeues s pf = true → chokedAdmissible s order = true)
+    (hstep : step s op = some s') :
+    s'.remaining.Nodup ∧ s'.pending.Nodup ∧ ∀ x, x ∈ s'.remaining → x ∉ s'.pending :=
+  let h := step_inv4 ⟨hinv.1, hinv.2.1, hinv.2.2⟩ hadm hstep
+  ⟨h.remNodup, h.pendNodup, h.disj⟩
+
+/-- **pd_remaining_nodup.** For a block list with pairwise different begins (every computed one,
+`calcBlocks_keys_nodup`), after every sequence of calls whose re-queueing chokes use admissible iteration
+orders: no block occurs twice in `remaining` (nor in `pending`). -/
+theorem pd_remaining_nodup (bl : List Block) (hkeys : (bl.map (·.b)).Nodup) (af : Bool) (buf : Bytes)
+    (ops : List Op) (s : State) (hadm : admissibleRun (init bl af buf) ops = true)
+    (hrun : run (init bl af buf) ops = some s) : s.remaining.Nodup ∧ s.pending.Nodup :=
+  let h := run_inv4 ops _ s (inv4_init hkeys af buf) hadm hrun
+  ⟨h.remNodup, h.pendNodup⟩
+
+/-- **pd_remaining_disjoint_pending.** Under the same hypotheses no block is in `remaining` and in
+`pending` at once: a block is never queued for a request while a request for it is outstanding. -/
+theorem pd_remaining_disjoint_pending (bl : List Block) (hkeys : (bl.map (·.b)).Nodup) (af : Bool)
+    (buf : Bytes) (ops : List Op) (s : State) (hadm : admissibleRun (init bl af buf) ops = true)
+    (hrun : run (init bl af buf) ops = some s) : ∀ x, x ∈ s.remaining → x ∉ s.pending :=
+  (run_inv4 ops _ s (inv4_init hkeys af buf) hadm hrun).disj
+
+/-! Both hypotheses are needed: two blocks with the same begin are queued twice by `New`; a choke that
+"iterates" a key twice queues it twice. -/
+example : (init [⟨0, 4⟩, ⟨0, 4⟩] false []).remaining = [0, 0] := by decide
+example : (run (init [⟨0, 4⟩] false []) [.requestBlocks 1, .choked false [0, 0]]).map (·.remaining) =
+    some [0, 0] := by decide
+
+/-! ### The window counts the requests at the peer -/
+
+/-- `RequestPiece` calls made by the call `op` in state `s`. -/
+def issuedBy (s : State) : Op → Nat
+  | .requestBlocks q =>
+    match requestBlocks s q with
+    | some (_, r) => r.length
+    | none => 0
+  | _ => 0
+
+/-- Requests that the call `op` in state `s` takes off the books: one for a block that answers a request
+(`GotBlock` returning nil), one for a reject of a request that is in the window, all of the window for a
+choke that re-queues (the peer has dropped them: no fast extension).  A block that arrives unrequested, a
+duplicate, a reject for a block that is not in the window retire nothing. -/
+def retiredBy (s : State) : Op → Nat
+  | .gotBlock b d => if (gotBlock s b d).2 = .ok then 1 else 0
+  | .rejected b l => if findBlock s b l && s.pending.contains b then 1 else 0
+  | .choked pf _ => if chokedRequeues s pf then s.pending.length else 0
+  | _ => 0
+
+/-- Requests sent minus requests retired along `ops` from `s`, for the transition function `stp`. -/
+def outstandingWith (stp : State → Op → Option State) : State → List Op → Int
+  | _, [] => 0
+  | s, op :: rest =>
+    (issuedBy s op : Int) - (retiredBy s op : Int) +
+      match stp s op with
+      | some s' => outstandingWith stp s' rest
+      | none => 0
+
+/-- Requests sent minus requests retired along `ops` from `s`. -/
+def outstanding (s : State) (ops : List Op) : Int := outstandingWith step s ops
+
+/-- One call: the window grows by the requests sent and shrinks by the requests retired. -/
+theorem step_outstanding {s s' : State} {op : Op} (hi : Inv4 s) (h : step s op = some s') :
+    (s'.pending.length : Int) = s.pending.length + issuedBy s op - retiredBy s op := by
+  cases op with
+  | gotBlock b d =>
+    simp only [step, Option.some.injEq] at h
+    subst h
+    have := gotBlock_window s hi b d
+    simp only [issuedBy, retiredBy]
+    split at this <;> rename_i hc <;> simp [hc] <;> omega
+  | choked pf order =>
+    simp only [step, Option.some.injEq] at h
+    subst h
+    have := choked_window s pf order
+    simp only [issuedBy, retiredBy]
+    split at this <;> rename_i hc <;> simp only [hc, if_true, if_false, Bool.false_eq_true] <;> omega
+  | rejected b l =>
+    simp only [step, Option.some.injEq] at h
+    subst h
+    have := rejected_window s hi b l
+    simp only [issuedBy, retiredBy]
+    split at this <;> rename_i hc <;> simp only [hc, if_true, if_false, Bool.false_eq_true] <;> omega
+  | requestBlocks q =>
+    simp only [step, Option.map_eq_some_iff] at h
+    obtain ⟨⟨s1, r⟩, h1, h2⟩ := h
+    simp only at h2
+    subst h2
+    have := requestBlocks_window hi h1
+    simp only [issuedBy, retiredBy, h1]
+    omega
+  | cancelPending =>
+    simp only [step, Option.map_eq_some_iff] at h
+    obtain ⟨_, _, h2⟩ := h
+    subst h2
+    simp [issuedBy, retiredBy]
+  | done =>
+    simp only [step, Option.some.injEq] at h
+    subst h
+    simp [issuedBy, retiredBy]
+
+theorem run_outstanding : ∀ (ops : List Op) (s s' : State), Inv4 s → admissibleRun s ops = true →
+    run s ops = some s' → outstanding s ops = (s'.pending.length : Int) - s.pending.length := by
+  intro ops
+  induction ops with
+  | nil =>
+    intro s s' _ _ h
+    simp [run, List.foldlM] at h
+    subst h
+    simp [outstanding, outstandingWith]
+  | cons op rest ih =>
+    intro s s' hi hadm h
+    obtain ⟨hadm1, hadm2⟩ := admissible_head hadm
+    unfold run at h
+    rw [List.foldlM_cons] at h
+    cases hs : step s op with
+    | none => rw [hs] at h; cases h
+    | some s1 =>
+      rw [hs] at h
+      have h1 := step_outstanding hi hs
+      have h2 := ih s1 s' (step_inv4 hi hadm1 hs) (hadm2 s1 hs) h
+      unfold outstanding at h2 ⊢
+      simp only [outstandingWith, hs]
+      omega
+
+/-- **pd_requests_within_window.** For a block list with pairwise different begins, along every history
+from `New` with admissible choke orders: the number of `RequestPiece` calls made minus the number of
+requests retired (answered by their block, rejected, or dropped by a re-queueing choke) **equals**
+`len(pending)` — every request sent has its own entry in the window, every entry stands for exactly one
+request — and therefore never exceeds the largest `queueLength` passed to `RequestBlocks`.  (`ops` is
+arbitrary, so this holds after every prefix of a history.) -/
+theorem pd_requests_within_window (bl : List Block) (hkeys : (bl.map (·.b)).Nodup) (af : Bool)
+    (buf : Bytes) (ops : List Op) (s : State) (hadm : admissibleRun (init bl af buf) ops = true)
+    (hrun : run (init bl af buf) ops = some s) :
+    outstanding (init bl af buf) ops = s.pending.length ∧ outstanding (init bl af buf) ops ≤ maxQ ops := by
+  have h1 := run_outstanding ops _ s (inv4_init hkeys af buf) hadm hrun
+  have h2 := run_pending ops [] (init bl af buf) s (by simp [init, maxQ]) hrun
+  simp only [List.nil_append] at h2
+  have h0 : (init bl af buf).pending.length = 0 := by simp [init]
+  rw [h0] at h1
+  constructor
+  · omega
+  · omega
+
+/-! Non-vacuity: 3 requests, a reject (and a second reject for the same request, ignored), a re-request,
+one block answered, a choke that drops the rest, an in-flight block arriving afterwards, 2 re-requests. -/
+def winOps : List Op := [.requestBlocks 3, .rejected 4 1, .rejected 4 1, .requestBlocks 3,
+  .gotBlock 0 [1, 2, 3, 4], .choked false [7, 4], .gotBlock 7 [7, 8, 9], .requestBlocks 3]
+
+example : admissibleRun exInit winOps = true := by decide
+example : (List.range 9).map (fun n => outstanding exInit (winOps.take n)) = [0, 3, 2, 2, 3, 2, 0, 0, 1] := by
+  decide
+example : (run exInit winOps).map (fun s => (s.remaining, s.pending, s.done)) = some ([], [4], [0, 7]) := by
+  decide
+
+/-! ### `Rejected` before the repair -/
+
+/-- `Rejected` as it was: the block goes back into `remaining` whether or not a request was outstanding. -/
+def rejectedOld (s : State) (begin length : Nat) : State × Bool :=
+  if !findBlock s begin length then (s, false)
+  else ({ s with pending := setDelete s.pending begin, remaining := s.remaining ++ [begin] }, true)
+
+/-- `step` with the old `Rejected`. -/
+def stepRejOld (s : State) : Op → Option State
+  | .rejected b l => some (rejectedOld s b l).1
+  | op => step s op
+
+def runRejOld (s : State) (ops : List Op) : Option State := ops.foldlM stepRejOld s
+
+def dblOps : List Op := [.requestBlocks 3, .rejected 4 1, .rejected 4 1]
+def overOps : List Op := dblOps ++ [.requestBlocks 3, .rejected 0 4, .requestBlocks 3]
+
+/-- **pd_double_request_unfixed_counterexample.** With the old `Rejected`, on a computed block list:
+
+* after request-3 / reject of block 4 / a second reject of block 4, block 4 is in `remaining` twice, and
+  `RequestBlocks(4)` then sends two requests for it while the window gets one entry;
+  (a single reject for a block never requested already queues it twice);
+* continuing with window size 3 throughout (`overOps`), 4 requests are at the peer — for blocks 7, 4, 4, 0
+  — while `len(pending)` = 3 = the largest `queueLength`: the bound of `pd_requests_within_window` fails.
+
+With the repaired `Rejected` the same calls leave block 4 queued once, one request is sent, and the books
+balance. -/
+theorem pd_double_request_unfixed_counterexample :
+    calcBlocks 4 exSecs = some exBlocks ∧
+    (∃ s s', runRejOld exInit dblOps = some s ∧ s.remaining = [4, 4] ∧ s.pending = [0, 7] ∧
+      requestBlocks s 4 = some (s', [(4, 1), (4, 1)]) ∧ s'.pending = [0, 7, 4]) ∧
+    (runRejOld exInit [.rejected 4 1]).map (·.remaining) = some [0, 4, 7, 4] ∧
+    (outstandingWith stepRejOld exInit overOps = 4 ∧ maxQ overOps = 3 ∧
+      (runRejOld exInit overOps).map (·.pending) = some [7, 4, 0]) ∧
+    (∃ s s', run exInit dblOps = some s ∧ s.remaining = [4] ∧ s.pending = [0, 7] ∧
+      requestBlocks s 4 = some (s', [(4, 1)]) ∧ s'.pending = [0, 7, 4]) ∧
+    outstanding exInit overOps = 3 := by
+  refine ⟨by decide, ?_, by decide, by decide, ?_, by decide⟩
+  · refine ⟨{ blocks := [(0, 4), (4, 1), (7, 3)], remaining := [4, 4], pending := [0, 7], done := [],
+              buf := List.replicate 10 0, allowedFast := false },
+            { blocks := [(0, 4), (4, 1), (7, 3)], remaining := [], pending := [0, 7, 4], done := [],
+              buf := List.replicate 10 0, allowedFast := false }, ?_⟩
+    decide
+  · refine ⟨{ blocks := [(0, 4), (4, 1), (7, 3)], remaining := [4], pending := [0, 7], done := [],
+              buf := List.replicate 10 0, allowedFast := false },
+            { blocks := [(0, 4), (4, 1), (7, 3)], remaining := [], pending := [0, 7, 4], done := [],
+              buf := List.replicate 10 0, allowedFast := false }, ?_⟩
+    decide
 
 end Rain.Props.C10PD
